@@ -66,7 +66,7 @@ type EC3Sub struct {
 
 // DecodeDec3 - box-specific decode
 func DecodeDec3(hdr BoxHeader, startPos uint64, r io.Reader) (Box, error) {
-	data, err := io.ReadAll(r)
+	data, err := readBoxBody(r, hdr) // Not io.ReadAll(r): r may continue with the following boxes
 	if err != nil {
 		return nil, err
 	}
